@@ -193,6 +193,15 @@ func (fr *Frame) evalCall0(st *State, call *ast.CallExpr, nWant int) []*Term {
 			}
 		}
 		recv, args := fr.evalRecvArgs(st, call, fn, sig)
+		if recv != nil {
+			if r := fn.Type().(*types.Signature).Recv(); r != nil {
+				if _, ptr := r.Type().Underlying().(*types.Pointer); ptr && !isPkgLevelVar(info, call.Fun.(*ast.SelectorExpr).X) {
+					// a method with a pointer receiver is entered with a non-nil receiver (the callee's body relies on it);
+					// package-level variables (base64.StdEncoding, ...) are assumed initialised
+					fr.derefCheck(st, recv, call.Fun)
+				}
+			}
+		}
 		if fc := e.cs.Funcs[key]; fc != nil && !(fr.top.fc == fc) && !(fc.Options["inline"] != "" && e.funcs[key] != nil) {
 			rs := fr.applyContract(st, fc, fn, sig, recv, args, call)
 			if deepEq != nil && len(rs) == 1 {
@@ -1491,4 +1500,20 @@ func usesVar(info *types.Info, n ast.Node, v *types.Var) bool {
 		return !found
 	})
 	return found
+}
+
+// isPkgLevelVar: the expression names a package-level variable (possibly qualified).
+func isPkgLevelVar(info *types.Info, x ast.Expr) bool {
+	var id *ast.Ident
+	switch y := ast.Unparen(x).(type) {
+	case *ast.Ident:
+		id = y
+	case *ast.SelectorExpr:
+		id = y.Sel
+	}
+	if id == nil {
+		return false
+	}
+	v, ok := info.Uses[id].(*types.Var)
+	return ok && v.Pkg() != nil && v.Parent() == v.Pkg().Scope()
 }
